@@ -67,6 +67,12 @@ theorem nothing_follows {b : Bytes} {m : Msg} {d : D} (hb : b.length < 2 ^ 63) (
   have := Sound.decodeDns_sound' hb h
   exact ⟨this.1, this.2⟩
 
+/-- the same without the length hypothesis: an accepted message has at most 65536 octets (the decoder's own
+gate at the start of `Decoder::dns`), so `hb` of `nothing_follows` always holds -/
+theorem nothing_follows' {b : Bytes} {m : Msg} {d : D} (h : decodeDns b = .ok (m, d)) :
+    MsgAt b false m ∧ d.off = b.length :=
+  nothing_follows (by have := (Safe.decodeDns_ok_length h).2; omega) h
+
 /-- the RDATA reader of a record runs with the RDATA window as its limit -/
 theorem rdata_reader_window {d d' : D} {r : RR} (hd : D.Ok d) (h : decRR d = .ok (r, d')) :
     ∃ (name : Name) (ty cls ttl rdlen : Nat) (d5 c : D), D.Ok d5 ∧ d5.buf = d.buf ∧ d5.lim = d.lim ∧
